@@ -737,6 +737,8 @@ pub struct ExploreStats {
     pub max_preemptions: usize,
     /// the exploration stopped early because `max_execs` was reached
     pub exec_cap_hit: bool,
+    /// replaying a recorded prefix met a different enabled set (exploration stopped)
+    pub diverged: Option<String>,
 }
 
 /// Stateless depth-first exploration of every schedule with at most `bound` preemptions
@@ -763,7 +765,10 @@ pub fn explore(
             if debug {
                 eprintln!("prefix {prefix:?}\nparent:\n  {}\nreplay:\n  {}", parent.join("\n  "), out.render_schedule().join("\n  "));
             }
-            machinery_failure(d);
+            // the caller decides: for most drivers this is a machinery failure, for thread-scope
+            // drivers it is evidence that state leaked from one execution's threads into the next
+            st.diverged = Some(d.clone());
+            break;
         }
         if out.capped {
             machinery_failure("step cap hit inside one execution (livelock in the subject or harness?)");
